@@ -71,6 +71,13 @@ ArchList(i) == \* files in the window, newest (lowest index) first
   IF ~IsWindow \/ i > Base + Count - 1 THEN <<>>
   ELSE (IF disk.arch[i].k = "file" THEN <<disk.arch[i].d>> ELSE <<>>) \o ArchList(i + 1)
 
+\* the window by position, newest first, up to the highest occupied index; a hole (left behind by a failed
+\* rotation) is an empty chunk: the shadow shifts it along like the roller does, instead of closing it
+HighestUsed == IF \E i \in Window : disk.arch[i].k = "file" THEN CHOOSE i \in Window : disk.arch[i].k = "file" /\ \A j \in Window : disk.arch[j].k = "file" => j <= i
+               ELSE Base - 1
+ArchPos == IF ~IsWindow THEN <<>>
+           ELSE [j \in 1..(HighestUsed - Base + 1) |-> IF disk.arch[Base + j - 1].k = "file" THEN disk.arch[Base + j - 1].d ELSE <<>>]
+
 Snap == [act |-> [k |-> disk.act.k, d |-> [j \in 1..Len(disk.act.d) |-> disk.act.d[j].id]],
          arch |-> [x \in Idx |-> [k |-> disk.arch[x].k, d |-> [j \in 1..Len(disk.arch[x].d) |-> disk.arch[x].d[j].id]]]]
 Log(e) == IF Hist THEN Append(hist, e) ELSE hist
@@ -105,8 +112,8 @@ Build ==
   /\ pc = "down"
   /\ OpenEffect(~AppendMode)
   /\ used' = FALSE /\ rolls' = 0 /\ pc' = "idle" /\ res' = "none"
-  \* truncation at build discards the active content by design; the shadow restarts from the disk
-  /\ IF ~AppendMode THEN refAct' = <<>> /\ ref' = ArchList(Base) ELSE UNCHANGED <<ref, refAct>>
+  \* truncation at build discards the active content by design; the shadow restarts from the disk (by position)
+  /\ IF ~AppendMode THEN refAct' = <<>> /\ ref' = ArchPos ELSE UNCHANGED <<ref, refAct>>
   /\ hist' = Log([op |-> "build", disk |-> Snap'])
   /\ UNCHANGED <<cur, ri, after, acked, nextId, fault, nFaults, nCrash, nRestart, nObst, nEnc>>
 
